@@ -31,3 +31,11 @@ impl Expression {
 	// trusted stand-in for common.rs `impl Expression :: fn location` (a field projection per variant)
 	#[verifier::external_body] pub fn location(&self) -> (r: &Location) ensures *r == expr_loc(*self) { unimplemented!() }
 }
+
+// Assumed std spec (trusted): `[T]::to_vec` clones the slice element-wise
+pub assume_specification<T: Clone>[ <[T]>::to_vec ](s: &[T]) -> (r: Vec<T>)
+	ensures r@.len() == s@.len(), forall|i: int| 0 <= i < s@.len() ==> vstd::pervasive::cloned(#[trigger] s@[i], r@[i]);
+
+// Assumed std spec (trusted): Option<Result<T, E>>::transpose
+pub assume_specification<T, E>[ Option::<Result<T, E>>::transpose ](o: Option<Result<T, E>>) -> (r: Result<Option<T>, E>)
+	ensures r == (match o { None => Ok::<Option<T>, E>(None), Some(Ok(x)) => Ok(Some(x)), Some(Err(e)) => Err(e) });
